@@ -78,6 +78,7 @@ type c11mon struct {
 	reqSinceEvent  int // Configure-Requests sent since the last peer or administrative event
 	termSinceEvent int // Terminate-Requests sent since then (own budget: a restart-timer retransmission may precede a close at the same instant)
 	limit          int
+	eventInOpened  bool // the last peer event was delivered while the automaton reported Opened: whatever negotiation it started is a fresh one
 	assigned       net.IP
 	lastSentAt     time.Duration
 }
@@ -198,6 +199,24 @@ func c11Gen(r *sim.Rand, tier string) *sim.Case {
 		cs.Ops = append(cs.Ops, sim.Op{K: "up"})
 	}
 	nk := 6
+	if r.P(10) {
+		// motif: a lossy bring-up (restart timer fires a few times), both sides acknowledge in
+		// either order, then the peer renegotiates and falls silent
+		cs.Ops = []sim.Op{{K: "open"}, {K: "up"}}
+		for k := r.N(int(cs.Knobs["maxcfg"])); k > 0; k-- {
+			cs.Ops = append(cs.Ops, sim.Op{K: "sleep", A: []int64{int64(sim.Pick(r, 2, 3))}})
+		}
+		first, second := sim.Op{K: "rcr", A: []int64{0, 0}}, sim.Op{K: "rca", A: []int64{0}}
+		if r.P(50) {
+			first, second = second, first
+		}
+		cs.Ops = append(cs.Ops, first)
+		if r.P(30) {
+			cs.Ops = append(cs.Ops, sim.Op{K: "sleep", A: []int64{int64(sim.Pick(r, 0, 2))}})
+		}
+		cs.Ops = append(cs.Ops, second, sim.Op{K: "rcr", A: []int64{0, 0}})
+		return cs
+	}
 	for i := 0; i < n; i++ {
 		switch r.Weighted(3, 2, 2, 2, 14, 12, 4, 4, 4, 3, 2, 2, 2, 10, 3, 2) {
 		case 15:
@@ -318,6 +337,7 @@ func c11Run(c *sim.Ctx) {
 		}
 		mon.curCode, mon.curID, mon.curData = code, id, data
 		mon.reqSinceEvent, mon.termSinceEvent = 0, 0
+		mon.eventInOpened = m.IsOpened()
 		pkt := cpPacket(byte(code), byte(id), data)
 		lastPkt, lastCode = pkt, code
 		c.S.Logf("deliver %s code=%d id=%d", kind, code, id)
@@ -471,21 +491,25 @@ func c11Run(c *sim.Ctx) {
 		}
 		switch op.K {
 		case "up":
+			mon.eventInOpened = false
 			up = true
 			mon.reqSinceEvent, mon.termSinceEvent = 0, 0
 			m.Up()
 			check("up", false)
 		case "down":
+			mon.eventInOpened = false
 			up = false
 			mon.reqSinceEvent, mon.termSinceEvent = 0, 0
 			mon.resetAgreement()
 			m.Down()
 			check("down", true)
 		case "open":
+			mon.eventInOpened = false
 			mon.reqSinceEvent, mon.termSinceEvent = 0, 0
 			m.Open()
 			check("open", false)
 		case "close":
+			mon.eventInOpened = false
 			mon.reqSinceEvent, mon.termSinceEvent = 0, 0
 			mon.resetAgreement()
 			m.Close()
@@ -528,6 +552,7 @@ func c11Run(c *sim.Ctx) {
 				}
 			})
 			c.S.Join(tA, tB)
+			mon.eventInOpened = false
 			mon.limit -= 2
 			if op.Arg(0) == 1 {
 				up = false
@@ -630,6 +655,7 @@ func c11Run(c *sim.Ctx) {
 			mon.curCode, mon.curID = int(lastPkt[0]), int(lastPkt[1])
 			mon.curData = lastPkt[4:]
 			mon.reqSinceEvent, mon.termSinceEvent = 0, 0
+			mon.eventInOpened = m.IsOpened()
 			c.S.Fault("net.dup")
 			m.ReceivePacket(lastPkt)
 			mon.curCode = 0
@@ -662,10 +688,26 @@ func c11Run(c *sim.Ctx) {
 	}
 	// bounded termination against a peer that has gone silent
 	c.OpIdx = len(cs.Ops)
+	negotiating := false
+	st0 := m.State()
+	switch st0 {
+	case "Req-Sent", "Ack-Rcvd", "Ack-Sent":
+		negotiating = true
+	}
+	// (no call into the automaton - a scheduling point - between reading and restarting the count)
+	sinceEvent := mon.reqSinceEvent
 	mon.reqSinceEvent, mon.termSinceEvent = 0, 0
 	before := mon.sentTotal
-	c.S.Probe("silence_from_" + m.State())
+	c.S.Probe("silence_from_" + st0)
 	c.S.Sleep(time.Duration(maxcfg+2)*rt + time.Second)
+	// "after the configured number": a negotiation the automaton started out of the opened state
+	// (the peer renegotiated and then fell silent) is a fresh one and gets the whole budget
+	if mon.eventInOpened && negotiating && up {
+		c.S.Probe("silence_after_renegotiation_from_opened")
+		if got := sinceEvent + mon.reqSinceEvent; got < maxcfg {
+			c.Fail("termination", "termination/"+cs.Variant+"/gave-up-early", "the peer renegotiated out of the opened state and fell silent: the automaton gave up after %d Configure-Requests, configured number %d", got, maxcfg)
+		}
+	}
 	if mon.sentTotal-before > mon.limit {
 		c.Fail("termination", "termination/"+cs.Variant+"/silent-peer-requests", "%d packets sent to a silent peer, configured maximum %d", mon.sentTotal-before, mon.limit)
 	}
